@@ -196,6 +196,14 @@ LINEAR = {"mean", "sum"}
 COMMUTATIVE = {"minimum", "maximum", "add", "multiply", "logical_and", "logical_or"}
 
 
+# positional parameter names of library functions whose arguments the repository passes both ways
+LIB_SIG = {
+    "normal": ["key", "shape", "dtype"], "uniform": ["key", "shape", "dtype", "minval", "maxval"], "split": ["key", "num"],
+    "randint": ["key", "shape", "minval", "maxval"], "choice": ["key", "a", "shape", "replace", "p"],
+    "permutation": ["key", "x"], "linspace": ["start", "stop", "num"], "broadcast_to": ["array", "shape"],
+}
+
+
 class Scope:
     """Name-resolution context for one function body."""
 
@@ -756,6 +764,12 @@ class NF:
         deps = frozenset(fdeps).union(*[a.deps for a in args], *[v.deps for v in kws.values()])
         g = frozenset() if nondiff else frozenset(fg).union(*[a.gdeps for a in args], *[v.gdeps for v in kws.values()])
         short_ = fname.split(".")[-1]
+        if kws and short_ in LIB_SIG and "**" not in kws:
+            # keywords that continue the positional prefix of a library function become positional: one canonical call shape
+            sig = LIB_SIG[short_]
+            args, kws = list(args), dict(kws)
+            while len(args) < len(sig) and sig[len(args)] in kws:
+                args.append(kws.pop(sig[len(args)]))
         if short_ == "clip" and kws and len(args) <= 3:
             lo_k = next((k for k in ("a_min", "min", "min_val") if k in kws), None)
             hi_k = next((k for k in ("a_max", "max", "max_val") if k in kws), None)
